@@ -81,7 +81,7 @@ MANIFEST = dict(
               "homogeneity degrees, affine translation weights)",
 )
 FLOORS = {"C03.1": 1, "C03.2": 1, "C03.3": 1, "C03.4": 3, "C03.5": 1,
-          "C03.6": 8, "C03.7": 2}
+          "C03.6": 8, "C03.7": 2, "C03.8": 4}
 FN = "evo.core.geometry.umeyama_alignment"
 
 
@@ -256,6 +256,13 @@ def check(ctx):
                    key="C03.4:sign-fix-translation")
         _sign_fix_value(ctx, f, ws, ret, fixes)
         _equivariance(ctx, f, ws, ret, x, y)
+    # "sets of unequal size are refused" must also hold at the public entry
+    # PosePath3D.align: it may only cut the inputs to the first n pairs when
+    # n is given — otherwise a longer reference is silently truncated and the
+    # size check never sees the mismatch (instances of C04.2)
+    from ..core import import_rules
+    n = import_rules(ctx, "c04", ("C04.2",), "C03.8")
+    ctx.require(n >= 4, "C03.8: first-n instances not found")
 
 
 def _sign_fix_value(ctx, f, ws, ret, fixes):
